@@ -121,7 +121,12 @@ class C16(Prop):
             "nesting 24..26, hand-made damaged texts, object files, crash points) + seeded random cases of five kinds: "
             "round trips of random nested values; valid save texts mutated 1-3 times (truncate / replace / delete / "
             "insert / duplicate / swap, biased to the format's special bytes); every prefix of a valid text; "
-            "save_object / restore_object incl. damaged files; crash-point and failure enumeration of save_object. "
+            "save_object / restore_object (both noclear flags) incl. damaged files; crash-point and failure enumeration of "
+            "save_object; generated inheritance trees (static / plain / private / public inherits, depth <= 3, shadowed names) "
+            "on the REAL dumped program trees; 24-variable objects; save files of another program version; file names incl. "
+            "0/1-character names and paths of 200..300 bytes (temporary-file name). Quantifier coverage measured per run "
+            "(histogram: error kinds, restored types, class values, nesting >= 25, CR strings, non-finite floats, noclear "
+            "restores, static inherits). "
             "non-trivial = trace has >= 2 lines; distinct = distinct canonical implementation trace")
     not_covered = ["mapping size limit (\"Mapping too large\") and out-of-memory paths of the restore are not modelled",
                    "C stack exhaustion by deeply nested text (recursion depth = nesting depth) is not modelled",
